@@ -365,3 +365,10 @@ extern "C" inline void verif_san_marker() {
 extern "C" void __asan_on_error() { verif_san_marker(); }
 extern "C" void __ubsan_on_report() { verif_san_marker(); }
 #endif
+
+// Coverage builds (bin/coverage only): the harnesses leave through _exit(), which skips the counters' at-exit dump.
+#ifdef VF_COVERAGE
+extern "C" void __gcov_dump(void);
+inline void vf_cov_exit(int c) { __gcov_dump(); ::_exit(c); }
+#define _exit(c) vf_cov_exit(c)
+#endif
